@@ -21,6 +21,7 @@ def parseEv (s : String) : Option Ev :=
   | ["l", r, k] => do some (.loadMeta ((← r.toNat?), (← k.toNat?)))
   | ["o", r, k, p] => do some (.openFile ((← r.toNat?), (← k.toNat?)) (← p.toNat?))
   | ["r", r, k] => do some (.release ((← r.toNat?), (← k.toNat?)))
+  | ["w", r, k] => do some (.warm ((← r.toNat?), (← k.toNat?)))
   | ["p", r, k] => do some (.publish ((← r.toNat?), (← k.toNat?)))
   | ["c", p, b] => do some (.create (← p.toNat?) (← b.toNat?))
   | ["s", l] => do some (.saveMeta (← natList l))
@@ -67,6 +68,11 @@ def handle : List String → String
       let js := pubsOf ρ (run init t)
       let mono := (js.zip js.tail).all (fun x => x.1 ≤ x.2)
       "seq=" ++ showBool (sequential ρ t) ++ " pubs=" ++ showNatList js ++ " mono=" ++ showBool mono
+    | _, _ => "bad-op"
+  | ["warm", ρ, evs] =>
+    match ρ.toNat?, parseTrace evs with
+    | some ρ, some t => "warmed=" ++ showBool (warmedBeforePublish ρ t) ++ " served=" ++
+        (match served ρ (run init t) with | some j => toString j | none => "-")
     | _, _ => "bad-op"
   | ["disc"] =>
     "readerLock=" ++ showBool codeDisc.readerLock ++ " gcLock=" ++ showBool codeDisc.gcLock
